@@ -5,7 +5,7 @@ Model: coq/C14.  Implementation: the real AxolotlControlLayer on the real Axolot
 small, against a server double that keeps the prekey directory and real Signal peers
 (python-axolotl SessionBuilder/SessionCipher) that consume one-time prekeys.
 """
-import os, json, hashlib, shutil, io, contextlib, glob, sqlite3
+import os, json, hashlib, shutil, io, contextlib, glob, sqlite3, re
 from .. import modelrun
 
 ASSUME = [
@@ -38,10 +38,12 @@ class Low(object):
         self.rig = rig
 
     def send(self, node):
-        self.rig.sent.append(node)
+        if not self.rig.dead:        # a killed process sends nothing any more
+            self.rig.sent.append(node)
 
     def onEvent(self, ev):
-        self.rig.broadcasts.append(ev.getName())
+        if not self.rig.dead:
+            self.rig.broadcasts.append(ev.getName())
         return True
 
     def broadcastEvent(self, ev):
@@ -53,7 +55,8 @@ class Up(object):
         self.rig = rig
 
     def receive(self, node):
-        self.rig.upper.append(node)
+        if not self.rig.dead:
+            self.rig.upper.append(node)
 
     def onEvent(self, ev):
         return True
@@ -64,7 +67,8 @@ class FakeNetIface(object):
         self.rig = rig
 
     def connect(self):
-        self.rig.connect_requests += 1
+        if not self.rig.dead:
+            self.rig.connect_requests += 1
 
 
 class FakeStack(object):
@@ -96,6 +100,8 @@ class Rig(object):
         self.profile_name = self.base_name
         os.makedirs(self.profile_name)
         self.n_kills = 0
+        self.dead = False            # the process was killed inside the current operation (what still runs is a zombie)
+        self.kill_info = None
         self.phone = "4915550001"
         self.serial_of = {}          # public key bytes -> serial
         self.directory = {}          # id -> bundle dict (server side, popped when handed out)
@@ -148,6 +154,73 @@ class Rig(object):
         self.start()
         self._drop(old_profile)
         shutil.rmtree(old_dir, ignore_errors=True)
+
+    # -- the process is KILLED at a write boundary INSIDE an operation
+    #    SQLite's own statement trace on the library's connection: the callback runs BEFORE the statement executes, so
+    #    at the callback the profile directory (db + rollback journal) is exactly what a process killed before that
+    #    statement leaves behind.  spec = ["pk_insert", n]: before the n-th INSERT into the prekeys table of this
+    #    operation; ["pk_commit", n]: before the COMMIT that follows it; ["first"]: before the first writing statement.
+    #    At the boundary the directory is copied (the image) and the process is declared dead: whatever the still
+    #    running interpreter emits afterwards is dropped.  When the operation returns the new process starts on the image.
+    PK_INSERT = re.compile(r"^\s*(INSERT|REPLACE)\b.*\bINTO\s+PREKEYS\b", re.I | re.S)
+    WRITE = re.compile(r"^\s*(INSERT|UPDATE|DELETE|REPLACE)\b", re.I)
+
+    def arm_kill(self, spec):
+        self.dead, self.kill_info = False, None
+        st = {"pk": 0, "after_pk": False}
+        image = "%s.k%d" % (self.base_name, self.n_kills + 1)
+        rig = self
+
+        def fire(where):
+            shutil.rmtree(image, ignore_errors=True)
+            shutil.copytree(rig.profile_name, image)
+            rig.dead = True
+            rig.kill_info = {"spec": list(spec), "at": where, "image": image, "prekey_inserts_started": st["pk"]}
+
+        def on_sql(stmt):
+            if rig.dead:
+                return
+            is_pk = bool(rig.PK_INSERT.match(stmt))
+            is_commit = stmt.lstrip().upper().startswith("COMMIT")
+            if spec[0] == "first" and (rig.WRITE.match(stmt) or is_commit):
+                return fire(stmt.strip()[:40])
+            if is_pk:
+                st["pk"] += 1
+                st["after_pk"] = True
+                if spec[0] == "pk_insert" and st["pk"] == spec[1]:
+                    st["pk"] -= 1
+                    return fire("before prekey insert #%d" % spec[1])
+            elif is_commit and st["after_pk"]:
+                st["after_pk"] = False
+                if spec[0] == "pk_commit" and st["pk"] == spec[1]:
+                    return fire("before the commit of prekey insert #%d" % spec[1])
+
+        self._kconn = self.store.preKeyStore.dbConn
+        self._kconn.set_trace_callback(on_sql)
+
+    def finish_kill(self):
+        """after the operation returned: stop tracing; if the boundary was reached the new process opens the image"""
+        try:
+            self._kconn.set_trace_callback(None)
+        except Exception:
+            pass
+        if not self.dead:
+            return False
+        old_profile, old_dir = self.profile, self.profile_name
+        try:
+            before = set((r[0], r[1]) for r in self.live_rows)
+            self.kill_info["rows_before"] = list(self.live_rows)
+            self.kill_info["zombie_new"] = [(r[0], r[1]) for r in self.rows_of(self.store)
+                                            if (r[0], r[1]) not in before]
+        except Exception:
+            self.kill_info["zombie_new"] = None
+        self.n_kills += 1
+        self.profile_name = self.kill_info["image"]
+        self.start()
+        self._drop(old_profile)
+        shutil.rmtree(old_dir, ignore_errors=True)
+        self.dead = False
+        return True
 
     def file_rows(self):
         """the store as the file holds it right now, read from a COPY of the profile directory (never through a
@@ -213,8 +286,19 @@ class Rig(object):
         u["skey"] = (sk.getChild("id").data, sk.getChild("value").data, sk.getChild("signature").data)
         return u
 
-    def do(self, op, real_rows_before):
-        """run one op on the implementation; returns canonical event list"""
+    def do(self, op, real_rows_before, kill=None):
+        """run one op on the implementation; returns canonical event list.  kill = boundary spec: the process dies
+        inside the operation (see arm_kill); self.killed tells whether the boundary was reached"""
+        self.killed = False
+        if kill is not None:
+            self.arm_kill(kill)
+            try:
+                return self._do(op, real_rows_before)
+            finally:
+                self.killed = self.finish_kill()
+        return self._do(op, real_rows_before)
+
+    def _do(self, op, real_rows_before):
         from yowsup.layers.network.layer import YowNetworkLayer
         from yowsup.layers.auth.layer_authentication import YowAuthenticationProtocolLayer as A
         from yowsup.structs import ProtocolTreeNode
@@ -261,7 +345,7 @@ class Rig(object):
             self.uploads[idx] = u
             self.iq_ids[idx] = u["stanza_id"]
             u["index"] = idx
-            u["rows_at_upload"] = self.observe()["rows"]
+            u["rows_at_upload"] = [] if self.dead else self.observe()["rows"]
             evs.append(["upload", idx, u])
         if other:
             evs.append(["unexpected-stanza", [n.tag for n in other]])
@@ -323,6 +407,8 @@ OPCODE = {"connect": 0, "authed": 1, "askkeys": 2, "result": 3, "error": 4, "dis
 
 
 def model_op(op):
+    if op[0] == "kill":        # ("kill", kind, spec, m, signed-prekey-stored): XKillConnect m / XKillAsk sg m
+        return [8, op[3]] if op[1] == "connect" else [9, op[3], 1 if op[4] else 0]
     if op[0] == "authed":
         return [1, 1 if op[1] else 0]
     if op[0] in ("result", "error", "consume"):
@@ -402,8 +488,24 @@ class HistoryRun(object):
                 if op is None:
                     continue
                 max_before = max([r[0] for r in before["rows"]] or [0])
-                evs = rig.do(op, before)
+                kill = sop.get("kill") if op[0] in ("connect", "askkeys") else None
+                evs = rig.do(op, before, kill=kill)
                 after = rig.observe()
+                if kill is not None and rig.killed:
+                    # the process died inside the operation and was restarted from the image: what the file holds is the
+                    # rows before the operation plus the first m keys of the batch (+ possibly the new signed prekey)
+                    old_pubs = set(r[1] for r in before["rows"])
+                    m_new = [r for r in after["rows"] if r[1] not in old_pubs]
+                    op = ("kill", op[0], list(kill), len(m_new), len(after["signed"]) > len(before["signed"]))
+                    self.nontrivial.add("kill-inside-generation" if m_new else "kill-inside-operation")
+                    zn = rig.kill_info.get("zombie_new")
+                    got = [(r[0], r[1]) for r in rig.live_rows if (r[0], r[1]) not in
+                           set((b[0], b[1]) for b in rig.kill_info.get("rows_before", []))]
+                    if zn is not None and got != zn[:len(got)]:
+                        self.tie_breaks.append({"step": len(self.ops), "op": list(op[:3]),
+                                                "what": "after a kill inside the operation the file does not hold the rows "
+                                                        "before it plus a prefix of the generated batch",
+                                                "ids_in_file": [g[0] for g in got], "batch_ids": [z[0] for z in zn]})
                 # durable state = live state after every call (the model commits per store call): the file, read
                 # from a copy, must hold exactly the rows the library's own connection sees
                 try:
@@ -445,9 +547,9 @@ class HistoryRun(object):
                     connected, authed, conn_uploads = True, False, []
                 elif op[0] == "authed":
                     authed = connected
-                elif op[0] in ("disconnected", "restart"):
+                elif op[0] in ("disconnected", "restart", "kill"):
                     connected = authed = False
-                    if op[0] == "restart":
+                    if op[0] in ("restart", "kill"):
                         pending = []
                 for e in evs:
                     if e[0] == "upload":
@@ -848,6 +950,34 @@ def systematic():
     ]
 
 
+def kill_family(tier):
+    """the process is killed at a write boundary INSIDE an operation that generates keys - the key-count request
+    (askkeys) once the store holds >= THRESHOLD_REGEN keys, the below-threshold refill of a connect - after 1, k/2
+    and k-1 of the k inserts, before the last insert's commit, before the first write and right after the signed
+    prekey; then the new process logs in passively, the partial batch is confirmed, and two further generations
+    follow (key-count request, and the threshold refill where the store is small enough)"""
+    C, A, D = {"op": "connect"}, {"op": "authed"}, {"op": "disconnected"}
+    res, ask = {"op": "result"}, {"op": "askkeys"}
+    use = {"op": "consume", "pick": 0}
+    out = []
+    for k in (3, 4, 5, 6, 104):
+        specs = [["pk_insert", 2], ["pk_insert", k // 2 + 1], ["pk_insert", k], ["pk_commit", k]]
+        rounds = 1 if k >= 10 else -(-10 // k)          # logins until the store holds >= 10 keys
+        warm = [C, A, res, D] * rounds
+        after = [C, A, res, D, C, A, ask, res, use, ask, res, D, C, A, res]
+        for spec in specs + [["first"], ["pk_insert", 1]]:
+            out.append((k, warm + [C, A, dict(ask, kill=spec)] + after))
+        if k < 10:
+            for spec in specs:
+                out.append((k, [C, A, res, D, dict(C, kill=spec)] + after))
+        if tier == "quick" and k == 104:
+            out = out[:-3]                                # keep three of the six large-batch histories in quick
+    if tier != "quick":
+        out.append((812, [C, A, res, D, C, A, dict(ask, kill=["pk_insert", 407])] +
+                    [C, A, res, D, C, A, ask, res, D, C, A]))
+    return out
+
+
 def gen_cases(ctx):
     cases = []
     cdir = os.path.join(os.path.dirname(os.path.dirname(os.path.dirname(os.path.abspath(__file__)))), "corpus", "C14")
@@ -858,6 +988,8 @@ def gen_cases(ctx):
                 cases.append(("corpus", d["batch"], d["script"]))
     for b, s in systematic():
         cases.append(("systematic", b, s))
+    for b, sc in kill_family(ctx.tier):
+        cases.append(("kill-inside", b, sc))
     if ctx.tier != "quick":
         C, A, D, R = {"op": "connect"}, {"op": "authed"}, {"op": "disconnected"}, {"op": "restart"}
         res, ask = {"op": "result"}, {"op": "askkeys"}
@@ -875,7 +1007,9 @@ def resolved_script(ops, op_wf=None):
     script step it came from, so that the same oracles apply when it is replayed)"""
     out = []
     for n, o in enumerate(ops):
-        if o[0] == "authed":
+        if o[0] == "kill":
+            d = {"op": o[1], "kill": list(o[2])}
+        elif o[0] == "authed":
             d = {"op": "authed", "passive": o[1]}
         elif o[0] in ("result", "error"):
             d = {"op": o[0], "iq": o[1]}
@@ -912,6 +1046,8 @@ def realistic(script):
             connected = authed = False
         elif k == "restart":
             connected = authed = False
+        if o.get("kill") and k in ("connect", "askkeys"):
+            connected = authed = False      # the process dies inside the operation
     return True
 
 
@@ -975,6 +1111,8 @@ def end_state(script):
         elif k == "authed":
             authed = connected
         elif k in ("disconnected", "restart"):
+            connected = authed = False
+        if o.get("kill") and k in ("connect", "askkeys"):
             connected = authed = False
     return connected, authed
 
